@@ -41,6 +41,14 @@ ClientOK(c, cfg) ==
      ELSE /\ c.calls = 0 /\ ~c.served                    \* nobody else has a command executed
           /\ (c.fault # "stall" => c.disconnected)       \* ... and is disconnected
 
+\* The application configured TLS itself and does not have client certificates verified ("anycert", "request"): who passes
+\* the handshake is its decision.  What remains: the common-name rule still reads the client's own certificate, nothing is
+\* executed before AUTH, and - ContainedOK below - whatever a client presents, the server goes on serving the others.
+ClientOKCustom(c, cfg) ==
+  /\ c.preauth_calls = 0
+  /\ (cfg.rule /\ c.served => c.cred # "nocert" /\ LeafHasName(c.cred))
+  /\ (~c.served => c.calls = 0)
+
 \* after ANY client, both listeners still serve well-behaved clients
 ContainedOK(p) == p.tlsok /\ p.plainok
 =============================================================================
